@@ -34,3 +34,17 @@ package respondent
 //@   at select#1 assert selidx == 1 ==> hops >= 1 && hops <= at("loop3:entry", s.ttl) && 4*hops <= len(body0) && body0[4*(hops-1)] >= 128 && forall(j, 0, hops-1, body0[4*j] < 128)
 //@   at call:Free#1 assert forall(j, 0, hops, body0[4*j] < 128) && hops >= s.ttl
 //@   at call:Free#2 assert forall(j, 0, hops-1, body0[4*j] < 128) && len(body0) < 4*hops
+//@
+//@ func (*context).RecvMsg
+//@   ghost hdr1 = msg.m.Header at call:Lock#2
+//@   at call:Unlock#3 assert eqseq(c.backtrace, hdr1) && arrof(c.backtrace) != arrof(hdr1) && c.recvPipe == msg.p
+//@
+//@ func (*context).SendMsg
+//@   ghost bt0 = c.backtrace at call:Lock#1
+//@   ghost rp = c.recvPipe at call:Lock#1
+//@   before select#1 assert p == rp && m.Header == bt0
+//@   at call:Unlock#3 assert isnil(c.backtrace) && c.recvPipe == nil
+//@   ensures isnil(bt0) && result != protocol.ErrClosed ==> result == protocol.ErrProtoState
+//@
+//@ func (*socket).OpenContext
+//@   ensures isnil(result1) ==> cast("*context", result0).recvPipe == nil && isnil(cast("*context", result0).backtrace)
